@@ -849,6 +849,24 @@ func (g *G) Stmt(depth int) ast.Node {
 		return g.assignStmt(0)
 	}
 	s := g.cur()
+	if s != nil && r.Chance(1, 14) {
+		// early return, possibly from inside (nested) loops
+		rt := s.retT
+		if rt.K == TVoid {
+			rt = g.valueType()
+		}
+		g.cls("stmt:early-return")
+		ret := ast.Return{X: g.Expr(rt, depth-1)}
+		if r.Chance(1, 5) {
+			return ret
+		}
+		return ast.If{Cond: g.Expr(Bool, depth-1), Then: ret}
+	}
+	if s != nil && g.O.Generators && depth > 0 && r.Chance(1, 16) {
+		if sl, ok := g.searchLoop(depth); ok {
+			return sl
+		}
+	}
 	switch r.Pick(12, 5, 5, 5, 4, 4, 3) {
 	case 0:
 		return g.assignStmt(depth)
@@ -1125,7 +1143,7 @@ func (g *G) TopStmt() ast.Node {
 	r := g.R
 	d := g.O.MaxDepth
 	for {
-		switch r.Pick(10, 10, 6, 4, 10, 5, 5, 4, 3) {
+		switch r.Pick(10, 10, 6, 4, 10, 5, 5, 4, 3, 3) {
 		case 0: // global value
 			t := g.valueType()
 			name := g.FreshName()
@@ -1182,10 +1200,34 @@ func (g *G) TopStmt() ast.Node {
 				return ast.Block{Stmts: mm.stmts}
 			}
 			return st
-		default:
+		case 8:
 			if g.O.Writes {
 				g.cls("top:write")
 				return ast.Call{Fn: "write", Args: []ast.Node{g.Expr(g.valueType(), d-1)}}
+			}
+		default: // top-level return in tail position
+			t := g.valueType()
+			ret := ast.Return{X: g.Expr(t, d-1)}
+			g.cls("top:return")
+			switch r.Intn(5) {
+			case 0:
+				return ret
+			case 1:
+				m := g.mark()
+				st := g.scopedStmt(d - 1)
+				g.restore(m)
+				return ast.Block{Stmts: appendStmt(appendStmt(nil, st), ret)}
+			case 2:
+				return ast.If{Cond: g.Expr(Bool, d-1), Then: ret, Else: g.Expr(t, d-1)}
+			case 3:
+				if f, ok := g.forOver(g.iterElemType(), d, func(v string) ast.Node { return ast.If{Cond: g.Expr(Bool, d-1), Then: ret} }); ok {
+					g.restore(g.mark())
+					return f
+				}
+				return ret
+			default:
+				l := g.countedLoop(d, func() []ast.Node { return []ast.Node{ast.If{Cond: g.Expr(Bool, d-1), Then: ret}} })
+				return ast.Block{Stmts: l}
 			}
 		}
 	}
@@ -1243,4 +1285,57 @@ func (g *G) fault(depth int) ast.Node {
 		}
 		return ast.Binary{Op: "<", L: ast.StrLit{V: "a"}, R: one}
 	}
+}
+
+// searchLoop: 1..3 nested for loops over int generators whose innermost body
+// returns from the function once a condition on the loop variables holds.
+func (g *G) searchLoop(depth int) (ast.Node, bool) {
+	r := g.R
+	s := g.cur()
+	rt := s.retT
+	if rt.K == TVoid {
+		rt = g.valueType()
+	}
+	levels := r.Range(1, 3)
+	m := g.mark()
+	defer g.restore(m)
+	var vars []string
+	var its []ast.Node
+	for l := 0; l < levels; l++ {
+		it, ok := g.generatorExpr(Int, depth)
+		if !ok {
+			return nil, false
+		}
+		v := g.FreshName()
+		g.declare(v, Int, true)
+		vars = append(vars, v)
+		its = append(its, it)
+	}
+	s.hasFor = true
+	var sum ast.Node = ast.Name{N: vars[0]}
+	for _, v := range vars[1:] {
+		sum = ast.Binary{Op: "+", L: sum, R: ast.Name{N: v}}
+	}
+	cond := ast.Binary{Op: []string{">", ">=", "=="}[r.Intn(3)], L: sum, R: ast.IntLit{V: int64(r.Intn(6))}}
+	var body ast.Node = ast.If{Cond: cond, Then: ast.Return{X: g.Expr(rt, depth-1)}}
+	if r.Chance(1, 3) {
+		body = ast.Block{Stmts: []ast.Node{g.scopedStmtNoMulti(depth - 1), body}}
+	}
+	for l := levels - 1; l >= 0; l-- {
+		body = ast.For{Vars: []string{vars[l]}, Iters: []ast.Node{its[l]}, Body: body}
+	}
+	g.cls(fmt.Sprintf("stmt:search-loop-%d", levels))
+	return body, true
+}
+
+// scopedStmtNoMulti is scopedStmt that always yields exactly one statement.
+func (g *G) scopedStmtNoMulti(depth int) ast.Node {
+	st := g.scopedStmt(depth)
+	if mm, ok := st.(multi); ok {
+		if len(mm.stmts) > 0 {
+			return mm.stmts[0]
+		}
+		return ast.IntLit{V: 0}
+	}
+	return st
 }
